@@ -7,7 +7,9 @@ synchronisation walk, the irreversible height along the crash states, and the le
 namespace XV.Crash
 open XV.Chain XV.C01 XV.C02
 
-/-- side conditions of the walk theorems of C01 (block tree) and C02 (ghost log) for a walk from node `m` to `dest` -/
+/-- side conditions of the walk theorems of C01 (block tree) and C02 (ghost log) for a walk from node `m` to `dest`; the
+last one is what the ledger guarantees of the skip list (`SkipsConfirmed`: repaired `recoverUnconfirmedTx`; it replaces
+the former dynamic hypothesis "a pending transaction that the new branch confirms has a token input") -/
 structure WalkSide (e : Env) (m : Node) (dest : Nat) : Prop where
   tree : WalkTree e m.s.pointer dest
   ghost : ∃ C C0, Ledger e m.s C ∧
@@ -15,7 +17,7 @@ structure WalkSide (e : Env) (m : Node) (dest : Nat) : Prop where
     (C0 ++ blockTxs e (undoTodo e m.s.pointer dest).2).Nodup ∧
     (∀ bi ∈ (undoTodo e m.s.pointer dest).2, (∀ i ∈ (e.block bi).txs, (e.tx i).id = i) ∧
       (∀ i ∈ (e.block bi).txs, (e.tx i).coinbase = true → (e.tx i).ins = [] ∧ feeOf (e.tx i).outs = 0)) ∧
-    (∀ i ∈ m.s.pool, i ∈ C0 ++ blockTxs e (undoTodo e m.s.pointer dest).2 → (e.tx i).ins ≠ [])
+    SkipsConfirmed e m.s (C0 ++ blockTxs e (undoTodo e m.s.pointer dest).2)
 
 /-- **what is assumed of a history.** The base state is well-formed and every chain of the environment replays
 validly from it; the nodes of the UNINTERRUPTED run between two operations satisfy the C01 invariant `SInv` and the
@@ -80,8 +82,9 @@ theorem recover_of_walk (e : Env) (x : Node) (r : St × Bool)
 
 /-- **recovery of an interrupted synchronisation walk.** Node `m` runs `walk m.l.tip false` (the state machine is
 synchronised to the ledger tip) and the process dies after any batch of it; let `x` be what is on disk. Then for the
-part `B` of the old pool whose re-admission batches had not been written (`B` is the whole old pool when the crash hit
-before the first re-admission; `m.s.pool = A ++ B`):
+part `B` of the re-admission list whose batches had not been written (`B` is the whole list when the crash hit before the
+first re-admission; `repostList e m.s = A ++ B` — the old pool without the transactions the ledger records as confirmed on
+the chain walked to; the statement formerly said `m.s.pool`):
 * the restart `recover` succeeds exactly when the uninterrupted walk succeeds;
 * if it succeeds, the uninterrupted walk's state is the recovered state with `B` re-admitted on it (oldest first) —
   the same state, field by field, when `B` is empty, and otherwise the same tables below the pool transactions of `B`;
@@ -89,7 +92,7 @@ before the first re-admission; `m.s.pool = A ++ B`):
 * the ledger is untouched. -/
 theorem recover_sync (e : Env) (m : Node) (W : WalkTree e m.s.pointer m.l.tip)
     (s' : St) (hs' : s' ∈ walkTrace e m.s (lh m) m.l.tip false) :
-    ∃ A B, m.s.pool = A ++ B ∧
+    ∃ A B, repostList e m.s = A ++ B ∧
       (recover e (m.withState s')).1.l = m.l ∧
       (recover e (m.withState s')).2 = (walk e m.s (lh m) m.l.tip false).2 ∧
       ((walk e m.s (lh m) m.l.tip false).2 = true →
@@ -111,7 +114,7 @@ theorem recover_sync (e : Env) (m : Node) (W : WalkTree e m.s.pointer m.l.tip)
       have hp' : s'.pointer = m.l.tip := hp
       rw [← hres, ← hp']
       exact walk_self e s' (lh m) false hpool
-    refine ⟨[], m.s.pool, rfl, ?_, ?_, ?_, ?_⟩
+    refine ⟨[], repostList e m.s, rfl, ?_, ?_, ?_, ?_⟩
     · rw [hrec]; rfl
     · rw [hrec, walk_ok_iff_core]
     · intro hok
